@@ -8,6 +8,9 @@ BUILT = {
          "independent EM byte parser + row model; recovery obligation after faults", "4/C01"),
 }
 PLANNED = {}
+BUILT["C15"] = ("tilt-stack operations: foreign acquisition actor drops MRC stacks and tilt/index files; seeded sessions run sort/remove/"
+                "split/flip/crop/bin with array (xyz|zyx) or file input, array/list/file tilts and indices, output files chained into "
+                "later operations; disk faults and crashes; selection/permutation model + independent MRC parser", "4/C15")
 BUILT["C03"] = ("RELION conversion: seeded sessions export lists to RELION 3.0/3.1/4.0 tables and STAR files (name formats, optics on/off, "
                 "interleaved versions from one object), restart, import from file and memory, run the emmotl2relion/relion2emmotl/"
                 "relion2stopgap/stopgap2relion pipelines; independent RELION writer with px/Angstrom origins; disk faults and crashes; "
